@@ -158,6 +158,14 @@ def search (segs : List Seg) : List Char → Option (List (String × List Char))
     | some r => some r
     | none => search segs s
 
+/-- `Pattern.search` together with the start offset of the match (`m.start()`), counting from `k` -/
+def searchFrom (segs : List Seg) : List Char → Nat → Option (Nat × List (String × List Char))
+  | [], k => (matchSegs segs []).map fun r => (k, r)
+  | c :: s, k =>
+    match matchSegs segs (c :: s) with
+    | some r => some (k, r)
+    | none => searchFrom segs s (k + 1)
+
 /-- substring test (`re.search` of a pure literal) -/
 def findLit (p : List Char) : List Char → Bool
   | [] => p.isEmpty
